@@ -38,11 +38,15 @@ vars == <<stack, batch, data, fin, kind>>
 
 -----------------------------------------------------------------------------
 (* Leaves                                                                   *)
-Sels == {"m", "m{a=\"x\"}", "m{a!=\"x\",b=~\".*\"}", "c", "h", "hc", "mix", "stale", "nanv", "bk", "nosuch",
+Sels == {"m", "m{a=\"x\"}", "m{a!=\"x\",b=~\".*\"}", "c", "h", "hc", "mix", "stale", "gap", "nanv", "bk", "nosuch",
          "{__name__=~\"m|h\"}", "target_info"}
 Rngs == {"30s", "1m", "5m", "15s"}
-VLeaves == {s \o m : s \in Sels, m \in {"", " offset 30s", " offset -30s", " @ 100", " @ end()", " @ 100 offset 1m"}}
-MLeaves == {s \o "[" \o r \o "]" \o m : s \in Sels, r \in Rngs, m \in {"", " offset 30s", " @ 100", " @ start()"}}
+\* (the experimental anchored / smoothed modifiers come last)
+VLeaves == {s \o m : s \in Sels, m \in {"", " offset 30s", " offset -30s", " @ 100", " @ end()", " @ 100 offset 1m",
+                                       " smoothed", " @ 100 smoothed", " anchored"}}
+MLeaves == {s \o "[" \o r \o "]" \o m : s \in Sels, r \in Rngs, m \in {"", " offset 30s", " @ 100", " @ start()",
+                                                                     " anchored", " smoothed", " offset 30s anchored",
+                                                                     " @ 100 smoothed"}}
 SLeaves == {"0", "1", "2", "-1", "0.5", "NaN", "Inf", "-Inf", "1e308", "time()", "pi()", "9223372036854775807"}
 TLeaves == {"\"a\"", "\"\"", "\"__name__\"", "\"le\""}
 Leaves == {[ty |-> "v", s |-> x, d |-> 0, atom |-> TRUE, ill |-> FALSE, nd |-> FALSE] : x \in VLeaves}
@@ -96,6 +100,11 @@ Templates ==
       T(<<"sort_by_label(", "$v", ", ", "$t", ")">>, "v", TRUE),
       T(<<"info(", "$v", ")">>, "v", TRUE),
       T(<<"info(", "$v", ", {k=~\".+\"})">>, "v", TRUE),
+      \* modifiers on arguments the engine looks at as syntax (type assertions on the argument node)
+      T(<<"info(", "$v", ", {k=~\".+\"} @ 100)">>, "v", TRUE),
+      T(<<"info(", "$v", ", {k=\"v1\"} offset 30s)">>, "v", TRUE),
+      T(<<"info(", "$v", ", {__name__=\"target_info\"} @ end())">>, "v", TRUE),
+      T(<<"timestamp((", "$v", "))">>, "v", TRUE),
       T(<<"max_of(", "$s", ", ", "$s", ")">>, "s", TRUE),
       T(<<"min_of(", "$s", ", ", "$s", ")">>, "s", TRUE),
       T(<<"-", "$v">>, "v", FALSE),
@@ -164,8 +173,9 @@ Params == {[k |-> "i", t |-> 100, e |-> 100, st |-> 0],
 \* and as a range query over the data set that has every kind of series.  One query per initial state;
 \* the driver groups them into batches of BatchSize in emission order.
 Rep(ty, multi) ==
-  CASE ty = "v" -> IF multi THEN {"m", "h"} ELSE {"m", "h", "mix", "nanv"}
-    [] ty = "m" -> {"m[1m]", "h[1m]", "mix[5m]", "stale[30s]", "c[1m]"}
+  CASE ty = "v" -> IF multi THEN {"m", "h"} ELSE {"m", "h", "mix", "nanv", "m @ 100", "gap smoothed"}
+    [] ty = "m" -> {"m[1m]", "h[1m]", "mix[5m]", "stale[30s]", "c[1m]", "m[1m] @ 100", "gap[30s] anchored", "gap[1m] smoothed",
+                    "c[1m] anchored"}
     [] ty = "s" -> {"2", "NaN"}
     [] ty = "t" -> {"\"a\""}
 RepParams == {[k |-> "i", t |-> 100, e |-> 100, st |-> 0], [k |-> "r", t |-> 0, e |-> 300, st |-> 30]}
